@@ -330,9 +330,9 @@ def build_configs(tier, seed):
            'ElementComposite(ElementVector(ElementTetP2()), ElementTetP1())', 'ElementComposite(ElementTetRT1(), ElementTetP0())'] + \
           ([] if quick else ['ElementComposite(ElementTetRT1(), ElementTetN1(), ElementTetP2())', 'ElementVector(ElementTetP2())'])
     for spec in tet:
-        add('split/tet1/%s' % spec.replace(' ', ''), split_config, mesh='tet1', spec=spec, free='none' if quick else [3], timeout=900 if quick else 3000)
+        add('split/tet1/%s' % spec.replace(' ', ''), split_config, mesh='tet1', spec=spec, free='none' if quick else [3], timeout=900 if quick else 1500)
     if not quick:
-        add('split/hex1/HexS2xHex1', split_config, mesh='hex1', spec='ElementComposite(ElementHexS2(), ElementHex1())', free='none', timeout=900 if quick else 3000)
+        add('split/hex1/HexS2xHex1', split_config, mesh='hex1', spec='ElementComposite(ElementHexS2(), ElementHex1())', free='none', timeout=900 if quick else 1500)
     # CompositeBasis objects (b1 * b2, b1 @ b2, constructor with three bases)
     for mesh, specs, eq, kind in [('tri2', ('ElementTriP2', 'ElementTriP1'), False, 'cell'), ('tri2', ('ElementTriP1', 'ElementTriP0', 'ElementTriP2'), False, 'cell'),
                                   ('tri2', ('ElementTriP1', 'ElementTriP1'), True, 'cell'), ('line3perm', ('ElementLineP1', 'ElementLineP2', 'ElementLineP1'), False, 'cell'),
@@ -352,7 +352,7 @@ def build_configs(tier, seed):
                          ('line3perm', 'ElementLineP1', 'ElementLineP1'), ('line3perm', 'ElementLineP2', 'ElementLineP1'),
                          ('quad2', 'ElementQuad1', 'ElementQuad1'), ('tet2', 'ElementTetP1', 'ElementTetP1')]:
         add('coo/%s/%s-%s' % (mesh, tr, te), coo_config, mesh=mesh, trial=tr, test=te, free=(('none' if quick else [2]) if mesh == 'quad2' else ([0] if mesh == 'tet2' else None)),
-            timeout=900 if quick else 3000)
+            timeout=900 if quick else 1500)
     add('coo/tri2/ElementTriP0-ElementTriP0', coo_config, mesh='tri2', trial='ElementTriP0', test='ElementTriP0')
     return cfgs
 
